@@ -8,17 +8,17 @@ type Arr interface {
 	EW() int
 }
 
-type ArrZero struct{ ew int }                   // all elements zero
-type ArrBase struct{ v *Term }                  // declared array variable
-type ArrStore struct {                          // base with one element replaced
+type ArrZero struct{ ew int }  // all elements zero
+type ArrBase struct{ v *Term } // declared array variable
+type ArrStore struct {         // base with one element replaced
 	base Arr
 	i, v *Term
 }
 type ArrCopy struct { // base with [dOff, dOff+n) replaced by src[sOff, sOff+n)
-	base       Arr
-	dOff       *Term
-	src        Arr
-	sOff, n    *Term
+	base    Arr
+	dOff    *Term
+	src     Arr
+	sOff, n *Term
 }
 type ArrConcrete struct { // concrete contents (string literals, tables); out of range reads give 0
 	data []uint64
